@@ -114,6 +114,11 @@ def weather_frame_formals(prog):
             for i, a in enumerate(c.args):
                 if isinstance(a, ast.Attribute) and a.attr == "weather_df" and i < len(pos):
                     work.append((t, pos[i]))
+    # the model stores the frame through a property setter: its value parameter holds the user's frame too
+    for fi in prog.funcs.values():
+        if fi.name == "weather_df" and fi.cls and len(fi.params) == 2 and any(
+                isinstance(d, ast.Attribute) and d.attr == "setter" for d in getattr(fi.node, "decorator_list", [])):
+            work.append((fi, fi.params[1]))
     while work:
         f, formal = work.pop()
         if (f.key, formal) in out:
